@@ -953,6 +953,63 @@ Section Crypto.
       else if negb (signature_matches_rrset s set) then false
       else existsb (fun k => if usable_signature_candidate s k then crypto_verify_pm k s set =? E_OK else false) cands
     end.
+
+  (* ------------------------------ verify.go, RRSIG: the same in order, with the error returned *)
+  Definition E_PERIOD : N := 5.        (* ErrInvalidSignaturePeriod *)
+  Definition E_ALG : N := 6.           (* dns.ErrAlg *)
+  Definition E_NO_SIGS : N := 7.       (* ErrNoSignatures *)
+
+  (* the loop over the eligible keys of verifyOneSigWithWork(…, nil, …): E_OK as soon as one key verifies,
+     else the error of the last one tried *)
+  Fixpoint key_loop (s : rrsig) (set : list rr) (l : list dnskey) (last : N) : N :=
+    match l with
+    | [] => last
+    | k :: r => let e := crypto_verify_pm k s set in if e =? E_OK then E_OK else key_loop s set r e
+    end.
+  (* verifyOneSigWithWork(keys, set, sig, nil, _) as the error it returns: the tests in the order of the code,
+     the eligible candidates de-duplicated by identity and walked in ascending order (uniqueSortedDNSKEYs) *)
+  Definition verify_one_sig_code_pm (keys : list (N * list dnskey)) (set : list rr) (s : rrsig) (valid_now : bool) : N :=
+    match find (fun p => fst p =? s_keytag s) keys with
+    | None => E_MISSING_DNSKEY
+    | Some p =>
+      let cands := snd p in
+      if is_nil cands then E_MISSING_DNSKEY
+      else if negb (existsb (fun k => equal_fold (s_signer s) (k_name k)) cands) then E_MISSING_DNSKEY
+      else if negb valid_now then E_PERIOD
+      else if negb (is_supported_dnskey_alg (s_alg s)) then E_ALG
+      else if negb (signature_matches_rrset s set) then E_MISSING_SIGNED
+      else
+        let eligible := unique_sorted_keys (filter (usable_signature_candidate s) cands) in
+        if is_nil eligible then E_MISSING_DNSKEY else key_loop s set eligible E_MISSING_DNSKEY
+    end.
+
+  (* rrsigID / uniqueSortedRRSIGs: what a signature is keyed and ordered by *)
+  Definition sig_same (a b : rrsig) : bool :=
+    list_eqb (to_lower (fqdn (s_name a))) (to_lower (fqdn (s_name b)))
+    && (s_class a =? s_class b) && (s_covered a =? s_covered b) && (s_alg a =? s_alg b) && (s_labels a =? s_labels b)
+    && (s_origttl a =? s_origttl b) && (s_exp a =? s_exp b) && (s_inc a =? s_inc b) && (s_keytag a =? s_keytag b)
+    && list_eqb (to_lower (fqdn (s_signer a))) (to_lower (fqdn (s_signer b)))
+    && list_eqb (s_signature a) (s_signature b).
+  Definition sig_less (a b : rrsig) : bool :=
+    let na := to_lower (fqdn (s_name a)) in
+    let nb := to_lower (fqdn (s_name b)) in
+    let ga := to_lower (fqdn (s_signer a)) in
+    let gb := to_lower (fqdn (s_signer b)) in
+    if negb (list_eqb na nb) then bytes_lt na nb
+    else if negb (s_class a =? s_class b) then s_class a <? s_class b
+    else if negb (s_covered a =? s_covered b) then s_covered a <? s_covered b
+    else if negb (s_alg a =? s_alg b) then s_alg a <? s_alg b
+    else if negb (s_keytag a =? s_keytag b) then s_keytag a <? s_keytag b
+    else if negb (list_eqb ga gb) then bytes_lt ga gb
+    else if negb (s_labels a =? s_labels b) then s_labels a <? s_labels b
+    else if negb (s_origttl a =? s_origttl b) then s_origttl a <? s_origttl b
+    else if negb (s_inc a =? s_inc b) then s_inc a <? s_inc b
+    else if negb (s_exp a =? s_exp b) then s_exp a <? s_exp b
+    else bytes_lt (s_signature a) (s_signature b).
+  (* a signature of a message travels with its ValidityPeriod(now) bit *)
+  Definition sv_same (a b : rrsig * bool) : bool := sig_same (fst a) (fst b).
+  Definition sv_less (a b : rrsig * bool) : bool := sig_less (fst a) (fst b).
+  Definition unique_sorted_sigs (l : list (rrsig * bool)) : list (rrsig * bool) := sort_by sv_less (dedup_first sv_same [] l).
 End Crypto.
 
 (* ------------------------------------------- verify.go: the message walk *)
@@ -1057,6 +1114,46 @@ Section Walk.
     else forallb walk_group_verified walk_records.
 End Walk.
 
+(* the same walk in the order of the code, with the error returned: RRsets in ascending (owner, type, class)
+   order, the signatures of an RRset de-duplicated by identity and tried in ascending order
+   (uniqueSortedRRSIGs), the error of the last signature tried kept *)
+Section WalkCode.
+  Variable ONEC : list rr -> rrsig -> bool -> N.       (* verifyOneSig(keys, set, sig): which error, 0 = nil *)
+  Variable signer : list N.
+  Variables answer ns : list mitem.
+
+  Definition rrset_key_less (a b : rr) : bool :=
+    let na := to_lower (r_name a) in
+    let nb := to_lower (r_name b) in
+    if negb (list_eqb na nb) then bytes_lt na nb
+    else if negb (r_type a =? r_type b) then r_type a <? r_type b
+    else r_class a <? r_class b.
+  (* keysInOrder: one record for every RRset that takes part, ascending *)
+  Definition walk_keys : list rr := sort_by rrset_key_less (dedup_first same_rrset_key [] (walk_records signer answer ns)).
+  (* the loop over the signatures of one RRset: 0 = one verified *)
+  Fixpoint sig_loop (set : list rr) (l : list (rrsig * bool)) (last : N) : N :=
+    match l with
+    | [] => if last =? 0 then E_MISSING_SIGNED else last
+    | sv :: r => let e := ONEC set (fst sv) (snd sv) in if e =? 0 then 0 else sig_loop set r e
+    end.
+  Definition group_code (r : rr) : N :=
+    let sigs := filter (fun sv => sig_covers (walk_zone signer) (fst sv) r) (walk_sigs answer ns) in
+    if is_nil sigs then E_MISSING_SIGNED
+    else if negb (is_rrset (walk_group signer answer ns r)) then E_MISSING_SIGNED
+    else sig_loop (walk_group signer answer ns r) (unique_sorted_sigs sigs) 0.
+  Fixpoint groups_code (l : list rr) : N :=
+    match l with
+    | [] => 0
+    | r :: t => let e := group_code r in if e =? 0 then groups_code t else e
+    end.
+  (* verifyRRSIGWithWork(signer, keys, msg, nil) for a non-empty key map: which error, 0 = (true, nil) *)
+  Definition walk_code : N :=
+    if existsb (fun r => negb (walk_in_zone signer r)) (walk_answer signer answer ns) then E_MISSING_SIGNED
+    else if is_nil (walk_records signer answer ns) then 0
+    else if is_nil (walk_sigs answer ns) then E_NO_SIGS
+    else groups_code walk_keys.
+End WalkCode.
+
 Section CryptoWalk.
   Variable PM : N -> N -> N -> N.
   Variable H : N -> list N -> list N.
@@ -1067,6 +1164,9 @@ Section CryptoWalk.
   Definition verify_rrsig_pm (signer : list N) (keys : list (N * list dnskey)) (answer ns : list mitem) : bool :=
     if is_nil keys then false
     else walk_verdict (fun set s v => verify_one_sig_pm PM H ECP ECV EDV LIBV keys set s v) signer answer ns.
+  Definition verify_rrsig_code_pm (signer : list N) (keys : list (N * list dnskey)) (answer ns : list mitem) : N :=
+    if is_nil keys then E_MISSING_DNSKEY
+    else walk_code (fun set s v => verify_one_sig_code_pm PM H ECP ECV EDV LIBV keys set s v) signer answer ns.
 End CryptoWalk.
 
 (* the model proper: big.Int.Exp is square-and-multiply over N *)
@@ -1075,3 +1175,5 @@ Definition verify_signature := verify_signature_pm powmod.
 Definition crypto_verify := crypto_verify_pm powmod.
 Definition verify_one_sig := verify_one_sig_pm powmod.
 Definition verify_rrsig := verify_rrsig_pm powmod.
+Definition verify_one_sig_code := verify_one_sig_code_pm powmod.
+Definition verify_rrsig_code := verify_rrsig_code_pm powmod.
